@@ -248,7 +248,19 @@ func c03Seq(c *mon.Case, sp c03Spec) {
 				if c.Rand.Intn(3) == 0 {
 					bp = c.Rand.Intn(sp.NPipes)
 				}
-				switch c.Rand.Intn(7) {
+				switch c.Rand.Intn(8) {
+				case 7:
+					// the live id preceded by one or two stray words without the request bit: a reply
+					// header is exactly one word, so this is malformed and must be discarded
+					if cx.cur != 0 {
+						b := hx.Be32(c.Rand.Uint32() & 0x7fffffff)
+						if c.Rand.Intn(2) == 0 {
+							b = append(b, hx.Be32(c.Rand.Uint32()&0x7fffffff)...)
+						}
+						serial++
+						inj[serial] = &c03Inj{Serial: serial, ID: 0, Class: "stray-prefix", Pipe: bp, Owner: [2]int{-1, -1}}
+						injectRaw(bp, append(b, hx.ReplyWire(cx.cur, serial)...), "stray-prefix")
+					}
 				case 0:
 					if len(cx.oldIDs) > 0 {
 						inject(bp, cx.oldIDs[c.Rand.Intn(len(cx.oldIDs))], "stale")
@@ -322,7 +334,7 @@ func c03Seq(c *mon.Case, sp c03Spec) {
 	for k, v := range classes {
 		c.Count("injected_"+k, v)
 	}
-	if len(delivered) > 0 && (classes["stale"]+classes["foreign-old"]+classes["bitclear"]+classes["short"]+classes["random-id"]+classes["late-duplicate"]+classes["duplicate"]) > 0 {
+	if len(delivered) > 0 && (classes["stale"]+classes["foreign-old"]+classes["bitclear"]+classes["short"]+classes["stray-prefix"]+classes["random-id"]+classes["late-duplicate"]+classes["duplicate"]) > 0 {
 		c.Nontrivial()
 	}
 	c.Sig("seq|%d|%d|%s", sp.NCtx, sp.NPipes, arrival)
